@@ -38,15 +38,15 @@ enum TokPos {
     /// Position of a cursor inside a multiline token
     MultilineContent {
         /// Byte distance of the cursor from the next line break
-        reverse_col: u16,
+        reverse_col: u32,
         /// The number of line breaks between the cursor and the end of the token content
-        newlines_after_cursor: u16,
+        newlines_after_cursor: u32,
     },
 
     /// Position of a cursor in the whitespace before a token
     Whitespace {
         /// Column of the cursor (in bytes), measured from the previous line break
-        col: u16,
+        col: u32,
         /// The number of line breaks between the cursor and the subsequent token
         newlines_after_cursor: u16,
     },
@@ -152,10 +152,10 @@ impl LogicalLinesReconstructor for DelphiLogicalLinesReconstructor {
                             .map(|line| line.len())
                             .unwrap_or(content_after_cursor.len());
                         let newlines_after_cursor =
-                            (content_after_cursor.split('\n').count() - 1) as u16;
+                            (content_after_cursor.split('\n').count() - 1) as u32;
 
                         TokPos::MultilineContent {
-                            reverse_col: reverse_col as u16,
+                            reverse_col: reverse_col as u32,
                             newlines_after_cursor,
                         }
                     } else {
@@ -169,7 +169,8 @@ impl LogicalLinesReconstructor for DelphiLogicalLinesReconstructor {
                         &leading_ws.split_at(
                             (leading_ws.len() as u64).saturating_add_signed(tok_pos) as usize,
                         );
-                    let newlines_after_cursor = (ws_after_cursor.split('\n').count() - 1) as u16;
+                    let newlines_after_cursor =
+                        u16::try_from(ws_after_cursor.split('\n').count() - 1).unwrap_or(u16::MAX);
 
                     let col = if let Some(pos) = ws_before_cursor.rfind('\n') {
                         ws_before_cursor.len() - 1 - pos
@@ -179,7 +180,7 @@ impl LogicalLinesReconstructor for DelphiLogicalLinesReconstructor {
                     };
 
                     TokPos::Whitespace {
-                        col: col as u16,
+                        col: col as u32,
                         newlines_after_cursor,
                     }
                 };
@@ -332,7 +333,7 @@ impl CursorTracker for CursorTrackerImpl<'_> {
                     let mut lines = tok.get_content().rsplit('\n');
                     let lines_after_cursor_len = lines
                         .by_ref()
-                        .take(newlines_after_cursor.into())
+                        .take(newlines_after_cursor as usize)
                         // +1 for the separator
                         .map(|line| line.len() + 1)
                         .sum::<usize>();
@@ -381,9 +382,17 @@ impl CursorTracker for CursorTrackerImpl<'_> {
                         };
                         let col_start = col_ws_start + ws.len;
 
-                        (new_token_offset
-                            - (col_start - (col as usize).clamp(col_ws_start, col_start)))
-                            as u32
+                        let mut back = col_start - (col as usize).clamp(col_ws_start, col_start);
+                        if fmt.is_ignored() {
+                            // The blanks before an ignored token are reproduced as they were and
+                            // may be longer than one byte: stay on a character boundary.
+                            let ws = tok.get_leading_whitespace();
+                            while !ws.is_char_boundary(ws.len() - back.min(ws.len())) {
+                                back -= 1;
+                            }
+                        }
+
+                        (new_token_offset - back) as u32
                     }
                 }
             };
